@@ -44,7 +44,7 @@ structure Inv (s : St) : Prop where
   rdone : s.inClosed = true ↔ s.rpc = .done
 
 theorem inv_init (m : CMsg) : Inv (init m) := by
-  constructor <;> simp [init, live]
+  constructor <;> simp [init]
 
 theorem getFwd_zero (st : Stream) (h : st.extra = []) (f : Nat) (pc : FPc) (hf : getFwd st f = some pc) :
     f = 0 ∧ st.fwd = pc := by
@@ -132,7 +132,7 @@ theorem inv_step (caps : Caps) (s s' : St) (a : Act) (hI : Inv s) (h : step .fix
       simp only [hnc, Bool.false_eq_true, if_false] at h
       split at h
       · simp only [Option.some.injEq] at h; subst h
-        exact ⟨hI.1, hI.2, hI.3, hI.4, by simp [hnc]⟩
+        exact ⟨hI.1, hI.2, hI.3, hI.4, by simp⟩
       · simp at h
     · simp at h
   | rLeave =>
@@ -256,7 +256,7 @@ theorem inv_step (caps : Caps) (s s' : St) (a : Act) (hI : Inv s) (h : step .fix
         · simp only [Option.some.injEq] at h; subst h
           have h2 := count_move hI hk (setFwd st 0 .recv) 1 1 (by simp [hfw]) (by simp [setFwd])
           refine ⟨hI.1, extra_set hI _ (by simp [setFwd, hx]), by simp only; omega, ?_, hI.5⟩
-          intro hc; simp [hoc] at hc
+          intro hc; simp at hc
         · simp at h
       · simp at h
   | fDrop k f =>
@@ -1038,7 +1038,8 @@ theorem hinv_run (caps : Caps) (s : St) (hI : Inv s) (hH : HInv s) (sched : List
     · exact ih s hI hH hpas
 
 /-- **a client that only listens gets exactly what the service emitted, in order, then a normal
-close** (`_partial`: one request, passive client — the case of the statement's first sentence): for
+close** (the statement's first sentence, in the strongest form; `_partial` name kept: it is the
+single-request case of `c15_full_fixed`, with equality instead of a prefix at every moment): for
 every number of emitted values, every point at which the service closes its channel, every
 interleaving and all channel capacities,
 * at every moment the values emitted so far are: those already written to the client, then those
@@ -1188,5 +1189,554 @@ example :
     (run .fixed caps10 (init .fresh)
       [.aStep, .emit 0 0 1, .fStep 0 0, .emit 0 0 2, .wOut, .fStep 0 0, .emit 0 0 3, .fStep 0 0, .svcClose 0,
        .wOut, .fStep 0 0, .wOut, .wOut]).s2c = [.data 0 1, .data 0 2, .data 0 3, .closeNormal] := by decide
+
+/-! ### order and completeness with several channels and further client messages (code as it is) -/
+
+theorem dataOfK_append (k : Nat) (l₁ l₂ : List Frame) : dataOfK k (l₁ ++ l₂) = dataOfK k l₁ ++ dataOfK k l₂ := by
+  induction l₁ with
+  | nil => rfl
+  | cons f l ih =>
+    cases f with
+    | data j v => by_cases h : j = k <;> simp [dataOfK, h, ih]
+    | closeNormal => simp [dataOfK, ih]
+    | closeError => simp [dataOfK, ih]
+
+theorem outqK_append (k : Nat) (q₁ q₂ : List (Nat × Nat)) : outqK k (q₁ ++ q₂) = outqK k q₁ ++ outqK k q₂ := by
+  simp [outqK, List.filter_append]
+
+theorem outqK_cons_same (k x : Nat) (q : List (Nat × Nat)) : outqK k ((k, x) :: q) = x :: outqK k q := by
+  simp [outqK]
+
+theorem outqK_cons_other {k j : Nat} (x : Nat) (q : List (Nat × Nat)) (h : j ≠ k) : outqK k ((j, x) :: q) = outqK k q := by
+  simp [outqK, h]
+
+theorem outqK_single_same (k x : Nat) : outqK k [(k, x)] = [x] := by simp [outqK]
+theorem outqK_single_other {k j : Nat} (x : Nat) (h : j ≠ k) : outqK k [(j, x)] = [] := by simp [outqK, h]
+
+theorem dataOfK_single_same (k x : Nat) : dataOfK k [.data k x] = [x] := by simp [dataOfK]
+theorem dataOfK_single_other {k j : Nat} (x : Nat) (h : j ≠ k) : dataOfK k [.data j x] = [] := by simp [dataOfK, h]
+
+theorem outqK_none {n : Nat} {q : List (Nat × Nat)} (h : ∀ p ∈ q, p.1 < n) : outqK n q = [] := by
+  simp only [outqK, List.map_eq_nil_iff, List.filter_eq_nil_iff]
+  intro p hp hc
+  have := h p hp
+  simp at hc
+  omega
+
+theorem dataOfK_none {n : Nat} {l : List Frame} (h : ∀ k v, Frame.data k v ∈ l → k < n) : dataOfK n l = [] := by
+  induction l with
+  | nil => rfl
+  | cons f l ih =>
+    have ih' := ih (fun k v hm => h k v (List.mem_cons_of_mem _ hm))
+    cases f with
+    | data j v =>
+      have := h j v (by simp)
+      have hne : j ≠ n := by omega
+      simp [dataOfK, hne, ih']
+    | closeNormal => simp [dataOfK, ih']
+    | closeError => simp [dataOfK, ih']
+
+/-- per channel: exact accounting while the forwarder runs, a prefix once it has ended -/
+def OrdK (s2c : List Frame) (outq : List (Nat × Nat)) (k : Nat) (st : Stream) : Prop :=
+  (st.fwd = .done → (dataOfK k s2c ++ outqK k outq) <+: st.emitted) ∧
+  (st.fwd ≠ .done → st.emitted = dataOfK k s2c ++ outqK k outq ++ heldOf st.fwd)
+
+def ExactK (s2c : List Frame) (outq : List (Nat × Nat)) (k : Nat) (st : Stream) : Prop :=
+  st.emitted = dataOfK k s2c ++ outqK k outq ++ heldOf st.fwd
+
+structure GInv (s : St) : Prop where
+  tagsQ : ∀ p ∈ s.outq, p.1 < s.streams.length
+  tagsF : ∀ k v, Frame.data k v ∈ s.s2c → k < s.streams.length
+  wsW : s.wsClosed = true → s.wdone = true
+  cnW : Frame.closeNormal ∈ s.s2c → s.wdone = true
+  closingW : s.cGone = false → s.closing = true → s.wdone = true
+  inclosedW : s.cGone = false → s.inClosed = true → s.wdone = true
+  stopW : s.cGone = false → s.ended = false → s.stopAll = true → s.wdone = true
+  wdoneQ : s.cGone = false → s.wdone = true → s.outClosed = true ∧ s.outq = []
+  ord : s.cGone = false → ∀ (k : Nat) st, s.streams[k]? = some st → OrdK s.s2c s.outq k st
+  exact : s.cGone = false → s.ended = false → ∀ (k : Nat) st, s.streams[k]? = some st → ExactK s.s2c s.outq k st
+
+theorem ginv_init (m : CMsg) : GInv (init m) := by
+  constructor <;> simp [init]
+
+theorem all_done_of_closed {s : St} (hI : Inv s) (hc : s.outClosed = true) :
+    ∀ st ∈ s.streams, st.fwd = .done := by
+  intro st hst
+  have hz := hI.closedZero hc
+  have hcnt := hI.count
+  rw [hz] at hcnt
+  have := (List.countP_eq_zero.mp hcnt.symm) st hst
+  simpa [live] using this
+
+theorem get_set_cases {l : List Stream} {k k' : Nat} {st st' : Stream} (h : (l.set k st')[k']? = some st) :
+    (k = k' ∧ st = st') ∨ (k ≠ k' ∧ l[k']? = some st) := getElem?_set_cases l k k' st' st h
+
+theorem get_append_cases {l : List Stream} {n st : Stream} {k' : Nat} (h : (l ++ [n])[k']? = some st) :
+    l[k']? = some st ∨ (k' = l.length ∧ st = n) := by
+  by_cases hk : k' < l.length
+  · left; rw [List.getElem?_append_left hk] at h; exact h
+  · right
+    rw [List.getElem?_append_right (by omega)] at h
+    have : k' - l.length = 0 := by
+      cases hd : k' - l.length with
+      | zero => rfl
+      | succ n' => rw [hd] at h; simp at h
+    rw [this] at h
+    simp at h
+    exact ⟨by omega, h.symm⟩
+
+/-- a step that leaves queue, frames, channels' forwarders and emitted values alone -/
+theorem ginv_same {s s' : St} (hG : GInv s)
+    (h1 : s'.outq = s.outq) (h2 : s'.s2c = s.s2c) (h3 : s'.streams = s.streams) (h4 : s'.cGone = s.cGone)
+    (h5 : s'.wsClosed = s.wsClosed) (h6 : s'.wdone = s.wdone) (h7 : s.outClosed = true → s'.outClosed = true)
+    (hcl : s'.cGone = false → s'.closing = true → s'.wdone = true)
+    (hin : s'.cGone = false → s'.inClosed = true → s'.wdone = true)
+    (hst : s'.cGone = false → s'.ended = false → s'.stopAll = true → s'.wdone = true)
+    (hen : s'.ended = false → s.ended = false) : GInv s' := by
+  refine ⟨?_, ?_, ?_, ?_, hcl, hin, hst, ?_, ?_, ?_⟩
+  · rw [h1, h3]; exact hG.tagsQ
+  · rw [h2, h3]; exact hG.tagsF
+  · rw [h5, h6]; exact hG.wsW
+  · rw [h2, h6]; exact hG.cnW
+  · rw [h4, h6, h1]; intro hc hw; exact ⟨h7 (hG.wdoneQ hc hw).1, (hG.wdoneQ hc hw).2⟩
+  · rw [h4, h3, h2, h1]; exact hG.ord
+  · intro hc he; rw [h3, h2, h1]; exact hG.exact (h4 ▸ hc) (hen he)
+
+/-- a step that replaces channel `k` by `st'` (same queue and frames) -/
+theorem ginv_set {s : St} (hG : GInv s) {k : Nat} {st st' : Stream} (hk : s.streams[k]? = some st)
+    (s' : St) (h1 : s'.outq = s.outq) (h2 : s'.s2c = s.s2c) (h3 : s'.streams = s.streams.set k st')
+    (h4 : s'.cGone = s.cGone) (h5 : s'.wsClosed = s.wsClosed) (h6 : s'.wdone = s.wdone)
+    (h7' : s.outClosed = true → s'.outClosed = true)
+    (h8 : s'.closing = s.closing) (h9 : s'.inClosed = s.inClosed) (h10 : s'.stopAll = s.stopAll)
+    (h11 : s'.ended = s.ended)
+    (ho : s.cGone = false → OrdK s.s2c s.outq k st → OrdK s.s2c s.outq k st')
+    (he : s.cGone = false → s.ended = false → ExactK s.s2c s.outq k st → ExactK s.s2c s.outq k st') : GInv s' := by
+  have hlen : (s.streams.set k st').length = s.streams.length := by simp
+  refine ⟨?_, ?_, ?_, ?_, ?_, ?_, ?_, ?_, ?_, ?_⟩
+  · rw [h1, h3, hlen]; exact hG.tagsQ
+  · rw [h2, h3, hlen]; exact hG.tagsF
+  · rw [h5, h6]; exact hG.wsW
+  · rw [h2, h6]; exact hG.cnW
+  · rw [h4, h8, h6]; exact hG.closingW
+  · rw [h4, h9, h6]; exact hG.inclosedW
+  · rw [h4, h11, h10, h6]; exact hG.stopW
+  · rw [h4, h6, h1]
+    intro hc hw
+    exact ⟨h7' (hG.wdoneQ hc hw).1, (hG.wdoneQ hc hw).2⟩
+  · rw [h4, h3, h2, h1]
+    intro hc k' u hu
+    rcases get_set_cases hu with ⟨rfl, rfl⟩ | ⟨_, hu⟩
+    · exact ho hc (hG.ord hc k st hk)
+    · exact hG.ord hc k' u hu
+  · rw [h4, h11, h3, h2, h1]
+    intro hc hen k' u hu
+    rcases get_set_cases hu with ⟨rfl, rfl⟩ | ⟨_, hu⟩
+    · exact he hc hen (hG.exact hc hen k st hk)
+    · exact hG.exact hc hen k' u hu
+
+theorem dataOfK_snoc_close (k : Nat) (l : List Frame) (f : Frame) (hf : f = .closeNormal ∨ f = .closeError) :
+    dataOfK k (l ++ [f]) = dataOfK k l := by
+  rw [dataOfK_append]
+  rcases hf with rfl | rfl <;> simp [dataOfK]
+
+theorem mem_snoc_data {l : List Frame} {f : Frame} (hf : f = .closeNormal ∨ f = .closeError) {k v : Nat}
+    (h : Frame.data k v ∈ l ++ [f]) : Frame.data k v ∈ l := by
+  simp only [List.mem_append, List.mem_singleton] at h
+  rcases h with h | h
+  · exact h
+  · rcases hf with rfl | rfl <;> cases h
+
+theorem ginv_step (caps : Caps) (s s' : St) (a : Act) (hI : Inv s) (hJ : Inv2 s) (hG : GInv s)
+    (h : step .fixed caps s a = some s') : GInv s' := by
+  have hps : s.panic.isSome = false := by simp [hI.nopanic]
+  unfold step at h
+  simp only [hps, Bool.false_eq_true, if_false] at h
+  cases a with
+  | cSend m =>
+    simp only at h
+    split at h
+    · simp at h
+    · simp only [Option.some.injEq] at h; subst h
+      exact ginv_same hG rfl rfl rfl rfl rfl rfl id hG.closingW hG.inclosedW hG.stopW id
+  | cLeave =>
+    simp only at h
+    split at h
+    · simp at h
+    · simp only [Option.some.injEq] at h; subst h
+      exact ⟨hG.tagsQ, hG.tagsF, hG.wsW, hG.cnW, by simp, by simp, by simp, by simp, by simp, by simp⟩
+  | rStep =>
+    simp only at h
+    split at h
+    · split at h
+      · rename_i hws
+        simp only [readerExit, Variant.fixed, if_true, Option.some.injEq] at h; subst h
+        have hw := hG.wsW hws
+        exact ginv_same hG rfl rfl rfl rfl rfl rfl id (fun _ _ => hw) (fun _ _ => hw) hG.stopW id
+      · split at h
+        · simp only [Option.some.injEq] at h; subst h
+          exact ginv_same hG rfl rfl rfl rfl rfl rfl id hG.closingW hG.inclosedW hG.stopW id
+        · split at h
+          · rename_i hg
+            simp only [readerExit, Variant.fixed, if_true, Option.some.injEq] at h; subst h
+            exact ginv_same hG rfl rfl rfl rfl rfl rfl id (fun hc => by simp [hg] at hc)
+              (fun hc => by simp [hg] at hc) hG.stopW id
+          · simp at h
+    · rename_i m hr
+      have hnc : s.inClosed = false := by
+        cases hc : s.inClosed with
+        | false => rfl
+        | true => have := hI.rdone.mp hc; rw [hr] at this; simp at this
+      simp only [hnc, Bool.false_eq_true, if_false] at h
+      split at h
+      · simp only [Option.some.injEq] at h; subst h
+        exact ginv_same hG rfl rfl rfl rfl rfl rfl id hG.closingW
+          (fun hc hi => by simp at hi) hG.stopW id
+      · simp at h
+    · simp at h
+  | rLeave =>
+    simp only at h
+    split at h
+    · split at h
+      · rename_i hl
+        simp only [Variant.fixed, Bool.true_and] at hl
+        simp only [readerExit, Variant.fixed, if_true, Option.some.injEq] at h; subst h
+        have hw := hJ.leaving hl
+        exact ginv_same hG rfl rfl rfl rfl rfl rfl id hG.closingW (fun _ _ => hw) hG.stopW id
+      · simp at h
+    · simp at h
+  | aStep =>
+    simp only at h
+    split at h
+    · simp at h
+    · split at h
+      · split at h
+        · rename_i hc
+          simp only [Option.some.injEq] at h; subst h
+          exact ginv_same hG rfl rfl rfl rfl rfl rfl id hG.closingW hG.inclosedW
+            (fun hg _ _ => hG.inclosedW hg hc) id
+        · simp at h
+      · rename_i m rest hq
+        split at h
+        · simp only [Option.some.injEq] at h; subst h
+          exact ginv_same hG rfl rfl rfl rfl rfl rfl id hG.closingW hG.inclosedW hG.stopW id
+        · have hfail : ∀ c, GInv (adapterFail .fixed { s with inq := rest, calls := c }) := by
+            intro c
+            simp only [adapterFail, Variant.fixed, if_true]
+            exact ginv_same hG rfl rfl rfl rfl rfl rfl (fun hc => by simp [hc]) hG.closingW hG.inclosedW
+              (fun _ he => by simp at he) (fun he => by simp at he)
+          have happ : ∀ (s₁ : St) (n : Stream), s₁.outq = s.outq → s₁.s2c = s.s2c → s₁.streams = s.streams ++ [n] →
+              s₁.cGone = s.cGone → s₁.wsClosed = s.wsClosed → s₁.wdone = s.wdone → s₁.outClosed = s.outClosed →
+              s₁.closing = s.closing → s₁.inClosed = s.inClosed → s₁.stopAll = s.stopAll → s₁.ended = s.ended →
+              n.emitted = [] → heldOf n.fwd = [] → GInv s₁ := by
+            intro s₁ n h1 h2 h3 h4 h5 h6 h7 h8 h9 h10 h11 hne hnh
+            have hnew : ∀ (k' : Nat) u, (s.streams ++ [n])[k']? = some u →
+                s.streams[k']? = some u ∨ (k' = s.streams.length ∧ u = n) := fun k' u hu => get_append_cases hu
+            have hD : dataOfK s.streams.length s.s2c = [] := dataOfK_none hG.tagsF
+            have hQ : outqK s.streams.length s.outq = [] := outqK_none hG.tagsQ
+            refine ⟨?_, ?_, ?_, ?_, ?_, ?_, ?_, ?_, ?_, ?_⟩
+            · rw [h1, h3]; intro p hp; have := hG.tagsQ p hp; simp; omega
+            · rw [h2, h3]; intro k v hm; have := hG.tagsF k v hm; simp; omega
+            · rw [h5, h6]; exact hG.wsW
+            · rw [h2, h6]; exact hG.cnW
+            · rw [h4, h8, h6]; exact hG.closingW
+            · rw [h4, h9, h6]; exact hG.inclosedW
+            · rw [h4, h11, h10, h6]; exact hG.stopW
+            · rw [h4, h6, h7, h1]; exact hG.wdoneQ
+            · rw [h4, h3, h2, h1]
+              intro hc k' u hu
+              rcases hnew k' u hu with hu | ⟨rfl, rfl⟩
+              · exact hG.ord hc k' u hu
+              · refine ⟨fun _ => ?_, fun _ => ?_⟩
+                · rw [hD, hQ, hne]; exact List.prefix_refl _
+                · rw [hD, hQ, hne, hnh]; rfl
+            · rw [h4, h11, h3, h2, h1]
+              intro hc hen k' u hu
+              rcases hnew k' u hu with hu | ⟨rfl, rfl⟩
+              · exact hG.exact hc hen k' u hu
+              · simp only [ExactK]; rw [hD, hQ, hne, hnh]; rfl
+          have hnewS : ∀ c, GInv (newStream .fixed { s with inq := rest, calls := c }) := by
+            intro c
+            simp only [newStream, Variant.fixed, if_true]
+            split
+            · exact happ _ { refused := true, fwd := .done } rfl rfl rfl rfl rfl rfl rfl rfl rfl rfl rfl rfl rfl
+            · exact happ _ {} rfl rfl rfl rfl rfl rfl rfl rfl rfl rfl rfl rfl rfl
+          cases m with
+          | garbage => simp only [Option.some.injEq] at h; subst h; exact hfail s.calls
+          | failing => simp only [Option.some.injEq] at h; subst h; exact hfail (s.calls + 1)
+          | fresh => simp only [Option.some.injEq] at h; subst h; exact hnewS (s.calls + 1)
+          | reuse j =>
+            simp only at h
+            split at h
+            · simp only [Option.some.injEq] at h; subst h; exact hnewS (s.calls + 1)
+            · simp only [Variant.fixed, if_true, Option.some.injEq] at h; subst h
+              exact ginv_same hG rfl rfl rfl rfl rfl rfl id hG.closingW hG.inclosedW hG.stopW id
+  | emit k f x =>
+    simp only at h
+    split at h
+    · simp at h
+    · rename_i st hk
+      split at h
+      · simp at h
+      · split at h
+        · rename_i hg
+          have hx := hI.noextra st (List.mem_of_getElem? hk)
+          obtain ⟨rfl, hfw⟩ := getFwd_zero st hx f _ hg
+          simp only [Option.some.injEq] at h; subst h
+          refine ginv_set hG hk _ rfl rfl rfl rfl rfl rfl id rfl rfl rfl rfl ?_ ?_
+          · intro _ ho
+            have := ho.2 (by simp [hfw])
+            simp only [hfw, heldOf, List.append_nil] at this
+            exact ⟨fun hd => by simp [setFwd] at hd, fun _ => by simp [setFwd, heldOf, this]⟩
+          · intro _ _ he
+            simp only [ExactK, hfw, heldOf, List.append_nil] at he
+            simp [ExactK, setFwd, heldOf, he]
+        · simp at h
+  | svcClose k =>
+    simp only at h
+    split at h
+    · simp at h
+    · rename_i st hk
+      split at h
+      · simp at h
+      · simp only [Option.some.injEq] at h; subst h
+        exact ginv_set hG hk _ rfl rfl rfl rfl rfl rfl id rfl rfl rfl rfl (fun _ ho => ho) (fun _ _ he => he)
+  | fStep k f =>
+    simp only at h
+    split at h
+    · simp at h
+    · rename_i st hk
+      have hx := hI.noextra st (List.mem_of_getElem? hk)
+      split at h
+      · rename_i hg
+        obtain ⟨rfl, hfw⟩ := getFwd_zero st hx f _ hg
+        split at h
+        · simp only [fwdExit, Variant.fixed, if_true, Option.some.injEq] at h; subst h
+          refine ginv_set hG hk _ rfl rfl rfl rfl rfl rfl (fun hc => by simp [hc]) rfl rfl rfl rfl ?_ ?_
+          · intro _ ho
+            have := ho.2 (by simp [hfw])
+            simp only [hfw, heldOf, List.append_nil] at this
+            exact ⟨fun _ => by simp [setFwd, this], fun hd => by simp [setFwd] at hd⟩
+          · intro _ _ he
+            simp only [ExactK, hfw, heldOf, List.append_nil] at he
+            simp [ExactK, setFwd, heldOf, he]
+        · simp at h
+      · rename_i y hg
+        obtain ⟨rfl, hfw⟩ := getFwd_zero st hx f _ hg
+        have hpos := live_pos hk (by simp [live, hfw])
+        rw [← hI.count] at hpos
+        have hoc : s.outClosed = false := by
+          cases hc : s.outClosed with
+          | false => rfl
+          | true => have := hI.closedZero hc; omega
+        simp only [hoc, Bool.false_eq_true, if_false] at h
+        split at h
+        · simp only [Option.some.injEq] at h; subst h
+          have hklt : k < s.streams.length := (List.getElem?_eq_some_iff.mp hk).1
+          refine ⟨?_, ?_, hG.wsW, hG.cnW, hG.closingW, hG.inclosedW, hG.stopW, ?_, ?_, ?_⟩
+          · intro p hp
+            simp only [List.mem_append, List.mem_singleton] at hp
+            simp only [List.length_set]
+            rcases hp with hp | rfl
+            · exact hG.tagsQ p hp
+            · exact hklt
+          · simp only [List.length_set]; exact hG.tagsF
+          · intro hc hw
+            have := (hG.wdoneQ hc hw).1
+            simp [hoc] at this
+          · intro hc k' u hu
+            rcases get_set_cases hu with ⟨rfl, rfl⟩ | ⟨hne, hu⟩
+            · have := (hG.ord hc k st hk).2 (by simp [hfw])
+              simp only [hfw, heldOf] at this
+              refine ⟨fun hd => by simp [setFwd] at hd, fun _ => ?_⟩
+              simp [setFwd, heldOf, outqK_append, outqK_single_same, this]
+            · have := hG.ord hc k' u hu
+              simpa [OrdK, outqK_append, outqK_single_other y hne] using this
+          · intro hc hen k' u hu
+            rcases get_set_cases hu with ⟨rfl, rfl⟩ | ⟨hne, hu⟩
+            · have := hG.exact hc hen k st hk
+              simp only [ExactK, hfw, heldOf] at this
+              simp [ExactK, setFwd, heldOf, outqK_append, outqK_single_same, this]
+            · have := hG.exact hc hen k' u hu
+              simpa [ExactK, outqK_append, outqK_single_other y hne] using this
+        · simp at h
+      · simp at h
+  | fDrop k f =>
+    simp only at h
+    split at h
+    · simp at h
+    · rename_i st hk
+      have hx := hI.noextra st (List.mem_of_getElem? hk)
+      split at h
+      · rename_i y hg
+        obtain ⟨rfl, hfw⟩ := getFwd_zero st hx f _ hg
+        split at h
+        · rename_i hsa
+          simp only [Variant.fixed, Bool.true_and] at hsa
+          simp only [fwdExit, Variant.fixed, if_true, Option.some.injEq] at h; subst h
+          refine ginv_set hG hk _ rfl rfl rfl rfl rfl rfl (fun hc => by simp [hc]) rfl rfl rfl rfl ?_ ?_
+          · intro _ ho
+            have := ho.2 (by simp [hfw])
+            simp only [hfw, heldOf] at this
+            exact ⟨fun _ => by simp [setFwd, this], fun hd => by simp [setFwd] at hd⟩
+          · intro hc hen _
+            exfalso
+            have hw := hG.stopW hc hen hsa
+            have hcl := (hG.wdoneQ hc hw).1
+            have := all_done_of_closed hI hcl st (List.mem_of_getElem? hk)
+            rw [hfw] at this; simp at this
+        · simp at h
+      · simp at h
+  | stop k =>
+    simp only at h
+    split at h
+    · simp at h
+    · rename_i st hk
+      split at h
+      · simp only [Option.some.injEq] at h; subst h
+        exact ginv_set hG hk _ rfl rfl rfl rfl rfl rfl id rfl rfl rfl rfl (fun _ ho => ho) (fun _ _ he => he)
+      · simp at h
+  | wOut =>
+    simp only at h
+    split at h
+    · simp at h
+    · rename_i hnw
+      have hnw' : s.wdone = false := by simpa using hnw
+      split at h
+      · rename_i k x rest hq
+        simp only [Option.some.injEq] at h; subst h
+        have hkq : k < s.streams.length := hG.tagsQ (k, x) (by simp [hq])
+        refine ⟨?_, ?_, hG.wsW, ?_, hG.closingW, hG.inclosedW, hG.stopW, ?_, ?_, ?_⟩
+        · intro p hp; exact hG.tagsQ p (by simp [hq, hp])
+        · intro j v hm
+          simp only [List.mem_append, List.mem_singleton] at hm
+          rcases hm with hm | hm
+          · exact hG.tagsF j v hm
+          · cases hm; exact hkq
+        · intro hm
+          simp only [List.mem_append, List.mem_singleton] at hm
+          rcases hm with hm | hm
+          · exact hG.cnW hm
+          · cases hm
+        · intro _ hw; simp [hnw'] at hw
+        · intro hc k' u hu
+          have := hG.ord hc k' u hu
+          simp only [OrdK, hq] at this
+          by_cases hkk : k = k'
+          · subst hkk
+            simpa [OrdK, dataOfK_append, dataOfK_single_same, outqK_cons_same] using this
+          · simpa [OrdK, dataOfK_append, dataOfK_single_other x hkk, outqK_cons_other x rest hkk] using this
+        · intro hc hen k' u hu
+          have := hG.exact hc hen k' u hu
+          simp only [ExactK, hq] at this
+          by_cases hkk : k = k'
+          · subst hkk
+            simpa [ExactK, dataOfK_append, dataOfK_single_same, outqK_cons_same] using this
+          · simpa [ExactK, dataOfK_append, dataOfK_single_other x hkk, outqK_cons_other x rest hkk] using this
+      · rename_i hq
+        split at h
+        · rename_i hoc
+          simp only [writerLeave, Variant.fixed, if_true, Bool.false_eq_true, if_false, Option.some.injEq] at h
+          subst h
+          refine ⟨hG.tagsQ, fun k v hm => hG.tagsF k v (mem_snoc_data (Or.inl rfl) hm), fun _ => rfl, fun _ => rfl,
+            fun _ _ => rfl, fun _ _ => rfl, fun _ _ _ => rfl, fun _ _ => ⟨hoc, hq⟩, ?_, ?_⟩
+          · intro hc k' u hu
+            have := hG.ord hc k' u hu
+            simpa [OrdK, dataOfK_snoc_close k' s.s2c .closeNormal (Or.inl rfl)] using this
+          · intro hc hen k' u hu
+            have := hG.exact hc hen k' u hu
+            simpa [ExactK, dataOfK_snoc_close k' s.s2c .closeNormal (Or.inl rfl)] using this
+        · simp at h
+  | wClosing =>
+    simp only at h
+    split at h
+    · simp at h
+    · rename_i hnw
+      have hnw' : s.wdone = false := by simpa using hnw
+      split at h
+      · rename_i hcl
+        simp only [writerLeave, Variant.fixed, if_true, Option.some.injEq] at h
+        subst h
+        refine ⟨hG.tagsQ, fun k v hm => hG.tagsF k v (mem_snoc_data (Or.inr rfl) hm), fun _ => rfl, fun _ => rfl,
+          fun _ _ => rfl, fun _ _ => rfl, fun _ _ _ => rfl, ?_, ?_, ?_⟩
+        · intro hc _
+          have := hG.closingW hc hcl
+          simp [hnw'] at this
+        · intro hc k' u hu
+          have := hG.ord hc k' u hu
+          simpa [OrdK, dataOfK_snoc_close k' s.s2c .closeError (Or.inr rfl)] using this
+        · intro hc hen k' u hu
+          have := hG.exact hc hen k' u hu
+          simpa [ExactK, dataOfK_snoc_close k' s.s2c .closeError (Or.inr rfl)] using this
+      · simp at h
+  | wOutFail =>
+    simp only at h
+    split at h
+    · simp at h
+    · split at h
+      · rename_i p rest hq
+        split at h
+        · rename_i hg
+          simp only [writerLeave, Variant.fixed, if_true, Bool.false_eq_true, if_false, Option.some.injEq] at h
+          subst h
+          refine ⟨fun p hp => hG.tagsQ p (by simp [hq, hp]),
+            fun k v hm => hG.tagsF k v (mem_snoc_data (Or.inr rfl) hm), fun _ => rfl, fun _ => rfl,
+            fun _ _ => rfl, fun _ _ => rfl, fun _ _ _ => rfl, ?_, ?_, ?_⟩
+          · intro hc; simp [hg] at hc
+          · intro hc; simp [hg] at hc
+          · intro hc; simp [hg] at hc
+        · simp at h
+      · simp at h
+
+theorem all_run (caps : Caps) (s : St) (hI : Inv s) (hJ : Inv2 s) (hG : GInv s) (sched : List Act) :
+    Inv (run .fixed caps s sched) ∧ Inv2 (run .fixed caps s sched) ∧ GInv (run .fixed caps s sched) := by
+  induction sched generalizing s with
+  | nil => exact ⟨hI, hJ, hG⟩
+  | cons a as ih =>
+    simp only [run]
+    split
+    · rename_i s' hs
+      exact ih s' (inv_step caps s s' a hI hs) (inv2_step caps s s' a hI hJ hs) (ginv_step caps s s' a hI hJ hG hs)
+    · exact ih s hI hJ hG
+
+/-- **per channel, in emission order, nothing invented** (any number of channels, any further
+client messages, any schedule): while the client is there, what was written to it for channel `k`,
+then what is queued, then what the forwarder holds is a prefix of what the service emitted on `k` -/
+theorem c15_order_per_channel (caps : Caps) (m₀ : CMsg) (sched : List Act) :
+    let s := run .fixed caps (init m₀) sched
+    s.cGone = false → ∀ (k : Nat) st, s.streams[k]? = some st →
+      (dataOfK k s.s2c ++ outqK k s.outq ++ heldOf st.fwd) <+: st.emitted := by
+  intro s hc k st hk
+  obtain ⟨_, _, hG⟩ := all_run caps _ (inv_init m₀) (inv2_init m₀) (ginv_init m₀) sched
+  have ho := hG.ord hc k st hk
+  by_cases hd : st.fwd = .done
+  · simpa [hd, heldOf] using ho.1 hd
+  · rw [← ho.2 hd]; exact List.prefix_refl _
+
+/-- **complete at a normal end**: the client is still there, never sent a bad message, and a
+normal close has been written ⇒ every value the service emitted on every channel was written
+before it -/
+theorem c15_complete_at_normal_close (caps : Caps) (m₀ : CMsg) (sched : List Act) :
+    let s := run .fixed caps (init m₀) sched
+    s.cGone = false → s.ended = false → Frame.closeNormal ∈ s.s2c →
+      ∀ (k : Nat) st, s.streams[k]? = some st → st.emitted = dataOfK k s.s2c := by
+  intro s hc hen hcn k st hk
+  obtain ⟨hI, _, hG⟩ := all_run caps _ (inv_init m₀) (inv2_init m₀) (ginv_init m₀) sched
+  change Inv s at hI
+  change GInv s at hG
+  have hw := hG.cnW hcn
+  obtain ⟨hoc, hq⟩ := hG.wdoneQ hc hw
+  have hd := all_done_of_closed hI hoc st (List.mem_of_getElem? hk)
+  have := hG.exact hc hen k st hk
+  simpa [ExactK, hq, hd, heldOf, outqK] using this
+
+/-- **the full statement holds for the code as it is** -/
+theorem c15_full_fixed : C15_full .fixed := by
+  intro caps m₀ sched hcap
+  refine ⟨c15_no_panic caps m₀ sched, c15_order_per_channel caps m₀ sched,
+    c15_complete_at_normal_close caps m₀ sched, ?_⟩
+  intro hg hq
+  have := c15_client_leaves caps hcap m₀ sched hg
+    ⟨hq _ rfl, hq _ rfl, hq _ rfl, hq _ rfl, hq _ rfl, hq _ rfl, fun k => hq _ rfl, fun k => ⟨hq _ rfl, hq _ rfl⟩⟩
+  exact ⟨this.1, this.2.1, this.2.2.1, this.2.2.2.2.1⟩
 
 end C15
